@@ -279,21 +279,21 @@ def run(tier: str, seed: int) -> int:
     drv = Driver()
     r = rng_for(PROP, seed)
     failures, diffs, stats = [], [], {}
-    steps = 3000 if tier == "quick" else 8000
-    n_env = 2 if tier == "quick" else 4
+    steps = 3000 if tier == "quick" else 5000
+    n_env = 2 if tier == "quick" else 3
     # shipped programs under both test configurations, generated programs (core/funcs/calls) with out-of-line functions
     for name, src in whole.repo_sources():
         for opts in (whole.default_opts(inline_functions=False, append_version=False), whole.default_opts(append_version=False)):
             check_program(drv, chk, name, src, opts, [0.0, 1.0, 2.0, 3.0, 5.0, 10.0, 0.5, -1.0], [1, 2], steps, failures, diffs, stats)
-    plan = [("core", 40 if tier == "quick" else 300), ("funcs", 70 if tier == "quick" else 400), ("calls", 40 if tier == "quick" else 250),
-            ("deep", 70 if tier == "quick" else 400)]
+    plan = [("core", 40 if tier == "quick" else 120), ("funcs", 70 if tier == "quick" else 220), ("calls", 40 if tier == "quick" else 120),
+            ("deep", 70 if tier == "quick" else 220)]
     for kind, n in plan:
         for i in range(n):
             g, prog, src, pool = whole.gen_program(r, kind)
             opts = whole.default_opts(inline_functions=(kind == "core"), append_version=False, use_push_pop_functions=r.random() < 0.3)
             check_program(drv, chk, f"{kind}:{i}", src, opts, pool, [r.randrange(1 << 30) for _ in range(n_env)], steps, failures, diffs, stats)
     # state machines: module-level variables that are updated and read only inside functions, main loop = calls + temporaries
-    for i in range(20 if tier == "quick" else 200):
+    for i in range(20 if tier == "quick" else 80):
         k = r.randrange(1, 4)
         gs = [f"st{j}" for j in range(k)]
         lines = []
@@ -320,7 +320,7 @@ def run(tier: str, seed: int) -> int:
                       steps, failures, diffs, stats)
     # loop headers: arguments / locals whose last textual use is the header of a loop (range bound, start, step, while limit),
     # with bodies that need fresh temporaries and locals — the value must stay in its register as long as the loop runs
-    for i in range(24 if tier == "quick" else 240):
+    for i in range(24 if tier == "quick" else 100):
         nf = r.randrange(1, 3)
         lines = []
         calls = []
@@ -350,7 +350,7 @@ def run(tier: str, seed: int) -> int:
                       [r.randrange(1 << 30) for _ in range(n_env)], steps, failures, diffs, stats)
     # layout: expressions laid out over several lines inside parentheses; a variable whose last use is the first line of such a
     # statement is still needed when the operands on the following lines are computed
-    for i in range(16 if tier == "quick" else 160):
+    for i in range(16 if tier == "quick" else 64):
         nf = r.randrange(1, 3)
         lines, calls = [], []
         for j in range(nf):
@@ -375,7 +375,7 @@ def run(tier: str, seed: int) -> int:
                       [r.randrange(1 << 30) for _ in range(n_env)], steps, failures, diffs, stats)
     # an inlined function (single call site: its parameters are other names for the caller's registers, not registers of its own)
     # that keeps values in locals across calls of a function compiled out of line — the callee must keep clear of all of them
-    for i in range(16 if tier == "quick" else 160):
+    for i in range(16 if tier == "quick" else 64):
         np_, nl, ncall = r.randrange(1, 3), r.randrange(1, 4), r.randrange(2, 4)
         lines = ["def report(value):", f"    shown = value * {r.choice([100, 2, 7])}", "    db.Setting = shown", ""]
         params = [f"p{j}" for j in range(np_)]
@@ -394,7 +394,7 @@ def run(tier: str, seed: int) -> int:
         check_program(drv, chk, f"inlined-caller:{i}", src, whole.default_opts(append_version=False), [0.0, 1.0, 2.0, 3.0, 4.0, 7.0],
                       [r.randrange(1 << 30) for _ in range(n_env)], steps, failures, diffs, stats)
     # register pressure: many simultaneously live variables, up to and beyond 16
-    for k in list(range(10, 22)) * (1 if tier == "quick" else 6):
+    for k in list(range(10, 22)) * (1 if tier == "quick" else 3):
         names = [f"q{i}" for i in range(k)]
         src = "".join(f"{n} = d0.Setting + {i}\n" for i, n in enumerate(names)) + "while True:\n" + "".join(f"    {n} = {n} + {names[(i + 1) % k]}\n" for i, n in enumerate(names)) + \
               "    db.Setting = " + " + ".join(names[:3]) + "\n    yield_()\n"
